@@ -466,3 +466,8 @@ func (p *Prog) ModuleDir(module string) (string, error) {
 	}
 	return strings.TrimSpace(string(out)), nil
 }
+
+// TypeLabel renders a type with the package labels used in canonical strings.
+func TypeLabel(t types.Type) string {
+	return types.TypeString(t, func(p *types.Package) string { return pkgLabel(p) })
+}
